@@ -70,7 +70,7 @@ func namedOf(t types.Type) string {
 		t = p.Elem()
 	}
 	if n, ok := t.(*types.Named); ok && n.Obj().Pkg() != nil {
-		return n.Obj().Pkg().Name() + "." + n.Obj().Name()
+		return n.Obj().Pkg().Name() + "." + curAliases.refTypeName(n.Obj().Pkg().Path(), n.Obj().Name())
 	}
 	return ""
 }
@@ -187,7 +187,7 @@ func runC18(w *World, r *Report) {
 		if !ok || field >= s.NumFields() {
 			return
 		}
-		k := tn + "." + s.Field(field).Name()
+		k := tn + "." + fieldName(base.Type(), field)
 		fieldType[k] = s.Field(field).Type()
 		accs[k] = append(accs[k], access{fn, in, write, what})
 	}
